@@ -155,5 +155,9 @@ fn main() {
     fin.exhaustive = ex.exhaustive;
     fin.assumptions = ex.assumptions;
     fin.extra.insert("reference_model_selftest_obligations".to_string(), serde_json::json!(selftest_n));
+    fin.extra.insert(
+        "reference_results_skipped_because_only_their_error_bound_overflowed".to_string(),
+        serde_json::json!(ops::BOUND_OVERFLOWS.load(std::sync::atomic::Ordering::Relaxed)),
+    );
     std::process::exit(fin.finish());
 }
